@@ -100,7 +100,43 @@ func (c *Ctx) flagSelect(fn *ssa.Function, flag string) (whenTrue, whenFalse str
 			}
 		}
 	}
-	return whenTrue, whenFalse, whenTrue != "" && whenFalse != ""
+	if whenTrue != "" && whenFalse != "" {
+		return whenTrue, whenFalse, true
+	}
+	// form 3: the selection is made by a helper of the same package whose result is ranged over or returned here
+	for _, b := range fn.Blocks {
+		for _, in := range b.Instrs {
+			call, ok := in.(*ssa.Call)
+			if !ok {
+				continue
+			}
+			cal := call.Call.StaticCallee()
+			if cal == nil || cal == fn || cal.Blocks == nil || cal.Pkg != fn.Pkg && (cal.Origin() == nil || cal.Origin().Pkg != originOf(fn).Pkg) {
+				continue
+			}
+			used := false
+			for _, r := range *call.Referrers() {
+				switch r.(type) {
+				case *ssa.Range, *ssa.Return:
+					used = true
+				}
+			}
+			if !used {
+				continue
+			}
+			if t, f, ok := c.flagSelect(cal, flag); ok {
+				return t, f, true
+			}
+		}
+	}
+	return "", "", false
+}
+
+func originOf(f *ssa.Function) *ssa.Function {
+	if o := f.Origin(); o != nil {
+		return o
+	}
+	return f
 }
 
 // emptinessField: fn returns the vertices v with len(v.<field>) == 0; returns <field>.
